@@ -5,25 +5,6 @@ C14 layer L2: property theorems about the worker pool's bookkeeping (atomic step
 import ArvVerif.Proofs.C14_L2
 namespace ArvVerif.C14
 
-/-- Worker ids are distinct (they are the keys of the Go map `wp.workers`). -/
-def Pool.WF (p : Pool) : Prop := p.workers.Pairwise (fun a b => a.id ≠ b.id)
-
-theorem find?_id_of_mem : ∀ (l : List Worker), l.Pairwise (fun a b => a.id ≠ b.id) →
-    ∀ w ∈ l, l.find? (fun x => x.id == w.id) = some w
-  | [], _, w, hw => by cases hw
-  | x :: rest, hwf, w, hw => by
-    rw [List.pairwise_cons] at hwf
-    rcases List.mem_cons.mp hw with h | h
-    · subst h; simp
-    · have hne : x.id ≠ w.id := hwf.1 w h
-      rw [List.find?_cons]
-      have : (x.id == w.id) = false := by simpa using hne
-      rw [this]
-      exact find?_id_of_mem rest hwf.2 w h
-
-theorem Pool.find_of_mem {p : Pool} (hwf : p.WF) {w : Worker} (hw : w ∈ p.workers) :
-    p.find w.id = some w := find?_id_of_mem p.workers hwf w hw
-
 /-- **Start needs an idle worker in run mode.** `StartContainer(it, u)` succeeds only by
 choosing a worker of type `it` whose state is Idle and whose idle behaviour is Run — never a
 held, draining, booting, unknown, running or shut-down one — and in the same atomic step that
